@@ -184,6 +184,29 @@ impl C10 {
                     cx.violation(&format!("{}|truncated-stream-accepted", class), json!({"len": bytes.len(), "bytes": render_bytes(bytes)}));
                     return;
                 }
+                // an accepted stream HAS an end-of-library record: walking the records as the format defines them (two length bytes, big-endian,
+                // counting the four header bytes; type byte 0x04 = ENDLIB) must arrive at one before the data runs out. This is decided here
+                // on the bytes, whatever the reader's own idea of "this record is ENDLIB" has become.
+                {
+                    let mut pos = 0usize;
+                    let mut endlib = false;
+                    while pos + 4 <= bytes.len() {
+                        let l = u16::from_be_bytes([bytes[pos], bytes[pos + 1]]) as usize;
+                        if bytes[pos + 2] == 0x04 {
+                            endlib = true;
+                            break;
+                        }
+                        if l < 4 {
+                            break;
+                        }
+                        pos += l;
+                    }
+                    if !endlib {
+                        cx.violation(&format!("{}|stream-without-end-of-library-record-accepted", class), json!({"len": bytes.len(), "bytes": render_bytes(bytes)}));
+                        return;
+                    }
+                    cx.count("accepted_streams_with_endlib_confirmed");
+                }
                 // what is returned is made of the stream: every string is text (a `String` holding bytes that are not UTF-8 is a broken value,
                 // however quietly it travels), and every coordinate is four consecutive bytes of the input (a word put together from the
                 // tail of a short payload and whatever an earlier record left in a buffer is an invention)
